@@ -36,12 +36,12 @@ for prop in sys.argv[1:]:
                 if 'cmds' in o:       # pub/sub block
                     return '%s{ %s }' % ('' if o.get('mode') == 'seq' else o.get('mode', '') + ' ', '; '.join(' '.join(bytes.fromhex(a).decode('latin1') or '""' for a in c['cmd']) + ' @conn%d' % c['conn'] for c in o['cmds']))
                 return None
-            if 'ops' in seq and any('cmds' in o for o in seq['ops']):
+            if seq.get('ops') and any('cmds' in o for o in seq['ops']):
                 rr = vlib.replay_seq(cx, work, suite, seq, 'final')
                 res[cls] = dict(suite=suite, seq=seq, ops=[_render(o) for o in seq['ops']],
                                 last=dict(reply=rr[-1]['kind'] + ':' + repr(rr[-1]['payload'][:60]), verdict=rr[-1]['f'].get(col)))
                 continue
-            res[cls] = dict(suite=suite, seq=seq, ops=([' '.join(bytes.fromhex(a).decode('latin1') for a in o.get('cmd', [])) + (' {while: ' + ' '.join(bytes.fromhex(a).decode('latin1') for a in o['inject']) + ' at ' + o.get('injectAt', '') + '}' if o.get('inject') else '') + (' [+%dms]' % o['adv'] if o.get('adv') else '') + (' @conn%d' % o['conn'] if o.get('conn', -1) >= 0 else '') for o in seq['ops']] if 'ops' in seq else [json.dumps(seq.get('z') or seq.get('writes'))[:400]]),
+            res[cls] = dict(suite=suite, seq=seq, ops=([' '.join(bytes.fromhex(a).decode('latin1') for a in o.get('cmd', [])) + (' {while: ' + ' '.join(bytes.fromhex(a).decode('latin1') for a in o['inject']) + ' at ' + o.get('injectAt', '') + '}' if o.get('inject') else '') + (' [+%dms]' % o['adv'] if o.get('adv') else '') + (' @conn%d' % o['conn'] if o.get('conn', -1) >= 0 else '') for o in seq['ops']] if seq.get('ops') else [json.dumps(seq.get('z') or seq.get('writes') or seq.get('auto') or {k: seq.get(k) for k in ('a', 'b')})[:400]]),
                             last=(lambda x: dict(reply=x['kind'] + ':' + repr(x['payload'][:60]), verdict=x['f'].get(col), at=x['seq']))(vlib.pick_row(rr, col, clscol, cls)))
     out[prop] = res
 shutil.rmtree(work, ignore_errors=True)
